@@ -171,6 +171,11 @@ class Endpoint:
         self.sim.call_at(max(self.last_arrival, self.sim.now), self.peer._deliver_reset)
 
 
+def _tname():
+    import threading
+    return threading.current_thread().name
+
+
 class Listener:
     def __init__(self, accept_fn):
         self.accept_fn = accept_fn
@@ -209,18 +214,18 @@ class Net:
         host, port = addr[0], addr[1]
         lst = self.listeners.get(port)
         if lst is None or not lst.accept:
-            self.connect_log.append((sim.vnow(), port, 'refused'))
+            self.connect_log.append((sim.vnow(), port, 'refused', _tname()))
             sim.count('net.refused')
             raise ConnectionRefusedError(111, 'Connection refused')
         if lst.refuse > 0:
             lst.refuse -= 1
-            self.connect_log.append((sim.vnow(), port, 'refused'))
+            self.connect_log.append((sim.vnow(), port, 'refused', _tname()))
             sim.count('net.refused')
             raise ConnectionRefusedError(111, 'Connection refused')
         a, b = self.pair()
         a.timeout = timeout
         lst.count += 1
-        self.connect_log.append((sim.vnow(), port, 'ok'))
+        self.connect_log.append((sim.vnow(), port, 'ok', _tname()))
         lst.accept_fn(b, (host, 40000 + self.nconn))
         return a
 
